@@ -291,7 +291,7 @@ func TestC16(t *testing.T) {
 		h2 := sim.NewHistOn(c, h.W, e.a2, h)
 		// branch X: the follower's own chain beyond the fork point (depth 0 = no fork)
 		depth := 0
-		kind := c.Weighted("depth.kind", 2, 4, 2, 3)
+		kind := c.Weighted("depth.kind", 2, 4, 2, 5)
 		switch kind {
 		case 1:
 			depth = c.Int("depth.small", 1, 6)
